@@ -16,6 +16,7 @@ import SlocModel.Driver.Check
 import SlocModel.Driver.Concurrency
 import SlocModel.Driver.Glob
 import SlocModel.Driver.Scope
+import SlocModel.Driver.Uri
 open SlocModel.Driver
 
 def dispatch (line : String) : String :=
@@ -67,6 +68,7 @@ def dispatch (line : String) : String :=
       | "conc-append" => handleConcAppend args
       | "glob" => handleGlob args
       | "scope" => handleScope args
+      | "uri" => handleUri args
       | _ => some "bad-op"
     r.getD "bad-args"
   | [] => "bad-op"
